@@ -17,6 +17,8 @@ if os.environ.get("PYTHONHASHSEED") != "0":
     # reproducible runs: the iteration order of the analyser's sets of strings (and with it the order in which paths are
     # explored and costs are measured) must not change from one run to the next
     os.environ["PYTHONHASHSEED"] = "0"
+    _here = os.path.dirname(os.path.dirname(os.path.abspath(__file__)))      # the directory that holds the package: found again
+    os.environ["PYTHONPATH"] = _here + (os.pathsep + os.environ["PYTHONPATH"] if os.environ.get("PYTHONPATH") else "")
     os.execv(sys.executable, [sys.executable, "-m", "sa"] + sys.argv[1:])
 
 from .loader import AnalysisError
